@@ -332,3 +332,14 @@ Definition run_c10 (dt : bool) (e : env) (s : schema) (v : pyval) : string :=
    not depend on that file) *)
 Definition mkw (a b c : bool) : wopts := {| strict := a; strict_allow_default := b; disable_tuple := c |}.
 Definition mkr (a b c d : bool) : ropts := {| ret_rec := a; ret_rec_override := b; ret_named := c; ret_named_override := d |}.
+
+(** schemas as parse_schema produces them: a dict form {"type": t, ...} wraps a primitive or a complex/named type,
+    never a union, a by-name reference or another dict form; named_schemas holds named types only *)
+Fixpoint plain_type (t : schema) : bool :=
+  match t with
+  | SAnnot _ s' => match s' with SAnnot _ _ | SUnion _ | SRef _ => false | _ => true end
+  | SUnion bs => forallb plain_type bs
+  | _ => true
+  end.
+Definition named_env (e : env) : bool :=
+  forallb (fun p => match strip (snd p) with SRecord _ _ _ | SEnum _ _ _ _ | SFixed _ _ _ => true | _ => false end) e.
